@@ -464,3 +464,60 @@ def SimResolver(files):
             return key in self.store
 
     return _R(files)
+
+
+# ----------------------------------------------------------------------------- corpus payloads (files of the repository's own models/ directory)
+_CORPUS_EXT = {
+    "stl": "stl", "stl_ascii": "stl", "ply": "ply", "ply_ascii": "ply", "off": "off", "obj": "obj", "obj_mtl": "obj", "glb": "glb", "gltf": "gltf", "3mf": "3mf",
+    "dae": "dae", "xyz": "xyz", "binvox": "binvox", "dxf": "dxf", "svg": "svg", "zip_stl": "zip", "zip_ply": "zip", "zip_glb": "zip", "zip_obj_mtl": "zip",
+}
+_CORPUS_CACHE = {}
+CORPUS_MAX = 32 * 1024
+
+
+def corpus(fmt):
+    """Sorted [(name, path)] of small model files shipped with the tree under test whose type matches the pipe's format.
+    They carry features trimesh's own exporters never write (interleaved buffer views, comments, negative indices, splines ...)."""
+    import os
+
+    ext = _CORPUS_EXT.get(fmt)
+    if ext is None:
+        return []
+    if ext not in _CORPUS_CACHE:
+        import trimesh
+
+        root = os.path.join(os.path.dirname(os.path.dirname(os.path.abspath(trimesh.__file__))), "models")
+        out = []
+        for sub in ("", "2D", "emptyIO"):
+            d = os.path.join(root, sub)
+            if not os.path.isdir(d):
+                continue
+            for fn in sorted(os.listdir(d)):
+                p = os.path.join(d, fn)
+                if os.path.isfile(p) and fn.lower().endswith("." + ext) and os.path.getsize(p) <= CORPUS_MAX:
+                    out.append((os.path.join(sub, fn) if sub else fn, p))
+        _CORPUS_CACHE[ext] = sorted(out)
+    return _CORPUS_CACHE[ext]
+
+
+def corpus_payload(fmt, idx):
+    """-> (files, main, file_type, name) for the idx-th corpus file of this format, with the side files it names, or None."""
+    import os
+    import re
+
+    c = corpus(fmt)
+    if not c:
+        return None
+    name, path = c[idx % len(c)]
+    with open(path, "rb") as f:
+        data = f.read()
+    main = os.path.basename(name).replace(" ", "_")
+    files = {main: data}
+    d = os.path.dirname(path)
+    for m in re.finditer(rb"[\w\-.]+\.(?:mtl|bin|png|jpg|jpeg)", data[:65536]):
+        side = m.group().decode("ascii", "ignore")
+        sp = os.path.join(d, side)
+        if side not in files and os.path.isfile(sp) and os.path.getsize(sp) <= 4 * CORPUS_MAX:
+            with open(sp, "rb") as f:
+                files[side] = f.read()
+    return files, main, _CORPUS_EXT[fmt], name
